@@ -55,8 +55,9 @@ BVals(t) ==
                          <<0, 0, 0, 0, 0, 0, 0, 128>>, <<255, 255, 255, 255, 255, 255, 255, 255>> >>
     [] t = "ULINT" -> << <<1, 0, 0, 0, 0, 0, 0, 0>>, <<0, 0, 0, 0, 1, 0, 0, 128>>,
                          <<255, 255, 255, 255, 255, 255, 255, 127>>, <<255, 255, 255, 255, 255, 255, 255, 255>> >>
-    [] t = "REAL"  -> << <<0, 0, 128, 63>>, <<0, 0, 128, 191>>, <<0, 0, 32, 64>>, <<255, 255, 127, 127>> >>
-    [] t = "LREAL" -> << <<0, 0, 0, 0, 0, 0, 240, 63>>, <<0, 0, 0, 0, 0, 0, 240, 191>>, <<0, 0, 0, 0, 0, 0, 4, 64>>,
+    \* (a non-integral value first: the small catalogues use the first two values only)
+    [] t = "REAL"  -> << <<0, 0, 32, 64>>, <<0, 0, 128, 191>>, <<0, 0, 128, 63>>, <<255, 255, 127, 127>> >>
+    [] t = "LREAL" -> << <<0, 0, 0, 0, 0, 0, 4, 64>>, <<0, 0, 0, 0, 0, 0, 240, 191>>, <<0, 0, 0, 0, 0, 0, 240, 63>>,
                          <<255, 255, 255, 255, 255, 255, 239, 127>> >>
     [] t = "SSTRING" -> << <<97>>, <<97, 98>>, <<>>, <<97, 98, 99>> >>
     [] t = "STRING"  -> << <<97>>, <<97, 98>>, <<>>, <<97, 98, 99>> >>
